@@ -54,14 +54,18 @@ class Res:
         self.is_ok, self.payload = is_ok, payload
 
 
-class Cell:
-    def __init__(self, value):
-        self.value = value
-
-
 class Ref:
+    """reference to a cell of the path-local heap (st['#heap'][cell]); `path` = field projections below it"""
+
     def __init__(self, cell, path=()):
         self.cell, self.path = cell, tuple(path)
+
+
+class ConstRef:
+    """reference to an immutable static (its value is known from the MIR's allocation dump)"""
+
+    def __init__(self, value):
+        self.value = value
 
 
 class AtomicRef:
@@ -129,8 +133,9 @@ class Outcome:
 
 
 class Exec:
-    def __init__(self, mir, consts=None):
+    def __init__(self, mir, consts=None, inline=None):
         self.mir = mir
+        self.inline = inline          # callee text -> Fn for crate-local functions to be inlined
         self.const_cache = {}
         self.functions_used = set()
         self.consts_hint = consts or {}
@@ -188,7 +193,7 @@ class Exec:
                 w = INT_W[(am.group(1) or am.group(2).lower())]
                 name = (a or {}).get("static") or alloc
                 return AtomicRef(name, w)
-            return Ref(Cell(self.static_value(alloc, ty)))
+            return ConstRef(self.static_value(alloc, ty))
         m = re.fullmatch(r"std::sync::atomic::Ordering::(\w+)", c)
         if m:
             return Unit()
@@ -241,9 +246,12 @@ class Exec:
         v = st[root]
         for pr in proj:
             if pr == "deref":
+                if isinstance(v, ConstRef):
+                    v = v.value
+                    continue
                 if not isinstance(v, Ref):
                     raise Unsupported("deref of non-reference")
-                x = v.cell.value
+                x = st["#heap"][v.cell]
                 for k in v.path:
                     x = x.fields[k]
                 v = x
@@ -271,10 +279,10 @@ class Exec:
                 raise Unsupported("store through non-reference")
             path = list(ref.path) + [x for x in proj[1:]]
             if not path:
-                ref.cell.value = val
+                st["#heap"][ref.cell] = val
                 return
-            ref.cell.value = copy_val(ref.cell.value)
-            tgt = ref.cell.value
+            st["#heap"][ref.cell] = copy_val(st["#heap"][ref.cell])
+            tgt = st["#heap"][ref.cell]
         else:
             st[root] = copy_val(st[root])
             tgt = st[root]
@@ -317,8 +325,6 @@ class Exec:
             if proj and proj[0] == "deref":      # reborrow
                 ref = st[root]
                 return Ref(ref.cell, list(ref.path) + proj[1:])
-            cell = Cell(st[root])
-            st[root] = _CellAlias(cell)  # later direct uses are not supported
             raise Unsupported("address-of local " + r)
         m = re.fullmatch(r"(.+) as (\w+) \((\w+)\)", r)
         if m:
@@ -365,6 +371,8 @@ class Exec:
             seen = seen | {bb}
             stmts, term = f.blocks[bb]
             st = dict(st)
+            if "#heap" in st:
+                st["#heap"] = dict(st["#heap"])
             for s in stmts:
                 self.statement(f, s, st)
             self.terminator(f, term, st, cs, seen, work, outs, stop_at_calls or ())
@@ -439,6 +447,22 @@ class Exec:
                     outs.append(Outcome("call", cs, callee=callee, args=args, argtxt=argtxt, dest=dest, next_bb=nxt, st=st, fn=f, seen=seen))
                     return
             res = self.builtin(callee, args, cs, outs)
+            callee_fn = self.inline(callee) if (res is None and self.inline) else None
+            if callee_fn is not None:
+                st_c = {p: a for (p, _t), a in zip(callee_fn.params, args)}
+                st_c["#heap"] = dict(st.get("#heap", {}))
+                for o in self.run(callee_fn, {}, cs, st=st_c):
+                    if o.kind == "panic":
+                        outs.append(o)
+                    elif o.kind == "return":
+                        st2 = dict(st)
+                        st2["#heap"] = dict(o.st.get("#heap", {}))
+                        if dest:
+                            self.write_place(dest, o.value, st2)
+                        work.append((nxt, st2, list(o.conds), seen))
+                    else:
+                        raise Unsupported("unexpected outcome while inlining " + callee)
+                return
             if res is None:
                 raise Unsupported("call to " + callee)
             if dest:
@@ -476,6 +500,12 @@ class Exec:
             if m.group(1) == "saturating":
                 return BV("(ite %s %s %s)" % (ov, sat, val), w)
             return Struct({0: BV(val, w), 1: Bool(ov)}, "tuple")
+        m = re.search(r"(?:<(?:u8|u16|u32|u64|usize|u128) as (?:std::cmp::|core::cmp::)?Ord>|cmp)::(max|min)(?:::<(?:u8|u16|u32|u64|usize|u128)>)?$", callee.strip())
+        if m and len(args) == 2 and isinstance(args[0], BV):
+            a, b = args
+            op = "bvugt" if m.group(1) == "max" else "bvult"
+            return BV("(ite (%s %s %s) %s %s)" % (op, a.term, b.term, a.term, b.term), a.width)
+        m = re.search(r"num::(?:::)?saturating_(add|sub)$", c)
         if re.search(r"Result(::)?::is_ok$", c) and isinstance(args[0], Res):
             return args[0].is_ok
         if re.search(r"Result(::)?::is_err$", c) and isinstance(args[0], Res):
@@ -490,11 +520,6 @@ class Exec:
             cs.append(o.is_some.term)
             return o.payload
         return None
-
-
-class _CellAlias:
-    def __init__(self, cell):
-        self.cell = cell
 
 
 def split_top(s):
